@@ -9,9 +9,11 @@ package props
 //     model's, on both sides. The service side is additionally driven by a raw client (ExecProto).
 
 import (
+	"bytes"
 	"context"
 	"encoding/json"
 	"fmt"
+	"net"
 	"strings"
 	"testing"
 	"time"
@@ -337,6 +339,9 @@ type PipeCase struct {
 	Order   []string          `json:"order"`
 	CutsS2C []int             `json:"cuts_s2c,omitempty"`
 	Hold    bool              `json:"hold"` // the proxy holds the replies of all outstanding calls and delivers them together
+	// Conc: while a call is being sent, another goroutine is already waiting in the receive function of the
+	// oldest outstanding call (one connection used in both directions at once: one writer, one reader)
+	Conc bool `json:"conc,omitempty"`
 }
 
 func execPipeline(c PipeCase, bound time.Duration) error {
@@ -362,6 +367,13 @@ func execPipeline(c PipeCase, bound time.Duration) error {
 	outstanding := 0 // reply frames sent by the service but not yet read by the client
 	gated := 0       // reply frames the proxy is holding back
 	framesOf := func(i int) int { return c.Conts[i] + 1 }
+	type bgRes struct {
+		fl  uint64
+		raw json.RawMessage
+		err error
+	}
+	bgCall, nextRecv := -1, 0 // call whose first receive runs in the background; oldest call not yet received
+	var bgCh chan bgRes
 	for _, o := range c.Order {
 		var i int
 		fmt.Sscanf(o[1:], "%d", &i)
@@ -383,9 +395,18 @@ func execPipeline(c PipeCase, bound time.Duration) error {
 				proxy.S2C.closeGate() // replies are held back until the next receive, then delivered together
 				gated += framesOf(i)
 			}
+			if c.Conc && bgCall < 0 && nextRecv < i && recvs[nextRecv] != nil {
+				bgCall, bgCh = nextRecv, make(chan bgRes, 1)
+				go func(r func(context.Context, interface{}) (uint64, error), ch chan bgRes) {
+					var res bgRes
+					res.fl, res.err = r(ctx, &res.raw)
+					ch <- res
+				}(recvs[nextRecv], bgCh)
+				time.Sleep(time.Millisecond) // let it get into the read
+			}
 			r, serr := conn.Send(ctx, "x.y.M", mustScript(i, nil, ops...), flags)
 			if serr != nil {
-				return fmt.Errorf("Send of call %d failed: %v", i, serr)
+				return fmt.Errorf("Send of call %d failed (a receive of call %d waiting concurrently: %v): %v", i, bgCall, bgCall >= 0, serr)
 			}
 			recvs[i] = r
 			continue
@@ -408,7 +429,19 @@ func execPipeline(c PipeCase, bound time.Duration) error {
 		}
 		for k := 0; k <= c.Conts[i]; k++ {
 			var raw json.RawMessage
-			fl, rerr := r(ctx, &raw)
+			var fl uint64
+			var rerr error
+			if k == 0 && bgCall == i {
+				select {
+				case res := <-bgCh:
+					fl, raw, rerr = res.fl, res.raw, res.err
+				case <-time.After(2 * bound):
+					return fmt.Errorf("pipelined calls (order %v): the receive of call %d that waited while later calls were sent did not return within %v", c.Order, i, 2*bound)
+				}
+				bgCall = -1
+			} else {
+				fl, rerr = r(ctx, &raw)
+			}
 			if rerr != nil {
 				if isTimeoutErr(rerr) {
 					return fmt.Errorf("pipelined calls (order %v): receive %d of call %d did not return within %v: a reply was lost", c.Order, k, i, bound)
@@ -428,13 +461,14 @@ func execPipeline(c PipeCase, bound time.Duration) error {
 			}
 			outstanding--
 		}
+		nextRecv = i + 1
 	}
 	return nil
 }
 
 func genPipe(t *rapid.T) PipeCase {
 	n := rapid.IntRange(2, 5).Draw(t, "ncalls")
-	c := PipeCase{Hold: rapid.IntRange(0, 3).Draw(t, "hold") != 0, CutsS2C: genProxyCuts(t, "s2c")}
+	c := PipeCase{Hold: rapid.IntRange(0, 3).Draw(t, "hold") != 0, CutsS2C: genProxyCuts(t, "s2c"), Conc: rapid.IntRange(0, 2).Draw(t, "conc") == 0}
 	for i := 0; i < n; i++ {
 		c.Docs = append(c.Docs, json.RawMessage(fmt.Sprintf(`{"call":%d,"doc":%s}`, i, DefaultJSON.Object(t, 2))))
 		k := 0
@@ -478,6 +512,9 @@ func checkPipe(c PipeCase, st *Stats) error {
 	if c.Hold {
 		labels = append(labels, "replies-of-several-calls-in-one-delivery")
 	}
+	if c.Conc {
+		labels = append(labels, "receive-waiting-while-sending")
+	}
 	st.Case(HashOf(c), inter || c.Hold, func() interface{} { return c }, labels...)
 	return err
 }
@@ -488,4 +525,169 @@ func TestC02Pipeline(t *testing.T) {
 	p := propC02Pipe
 	p.Gen = genPipe
 	RunRapid(t, p, "C02Pipeline")
+}
+
+// ---------------------------------------------------------------------------
+// a multi-megabyte message followed at once by the sender's close, read slowly by the peer, on kernel sockets:
+// a message whose write call returned is on the wire completely - closing must not cut it short.
+
+// BigCloseCase: Dir "s2c" = the handler replies MiB mebibytes and fails, so the service closes right after the
+// write; "c2s" = the client sends a oneway call of that size and closes its connection immediately.
+type BigCloseCase struct {
+	Transport string `json:"transport"` // tcp | unixfs
+	Dir       string `json:"dir"`
+	MiB       int    `json:"mib"`
+	Salt      int    `json:"salt"`
+}
+
+func bigDoc(c BigCloseCase) json.RawMessage {
+	unit := fmt.Sprintf("<%d \\\"q\\\" \\u0000 é 😀>", c.Salt)
+	var sb strings.Builder
+	sb.Grow(c.MiB<<20 + 64)
+	sb.WriteString(`{"big":"`)
+	for n := 0; sb.Len() < c.MiB<<20; n++ {
+		sb.WriteString(unit)
+		if n%1024 == 0 {
+			fmt.Fprintf(&sb, "[%d]", n)
+		}
+	}
+	sb.WriteString(`"}`)
+	return json.RawMessage(sb.String())
+}
+
+func execBigClose(c BigCloseCase, bound time.Duration) error {
+	bound *= WatchdogScale()
+	env, err := startE2E([]string{"x.y"}, c.Transport, true)
+	if err != nil {
+		return err
+	}
+	defer env.stop(bound)
+	doc := bigDoc(c)
+	netw, target := "unix", strings.TrimPrefix(env.address, "unix:")
+	if c.Transport == "tcp" {
+		netw, target = "tcp", strings.TrimPrefix(env.address, "tcp:")
+	}
+	switch c.Dir {
+	case "s2c":
+		var raw net.Conn
+		for dl := time.Now().Add(bound); ; {
+			raw, err = net.DialTimeout(netw, target, time.Second)
+			if err == nil {
+				break
+			}
+			if time.Now().After(dl) {
+				return fmt.Errorf("HARNESS: dial %s: %v", env.address, err)
+			}
+			time.Sleep(time.Millisecond)
+		}
+		defer raw.Close()
+		call := EncodeCall("x.y.M", mustScript(0, nil, Op{Op: "reply", P: doc}, Op{Op: "fail"}), false, false, false)
+		go raw.Write(append(call, 0))
+		// read slowly until the service closes
+		var got []byte
+		buf := make([]byte, 256<<10)
+		raw.SetReadDeadline(time.Now().Add(3 * bound))
+		var rerr error
+		for {
+			n, e := raw.Read(buf)
+			got = append(got, buf[:n]...)
+			if e != nil {
+				rerr = e
+				break
+			}
+			time.Sleep(time.Millisecond)
+		}
+		if ne, ok := rerr.(net.Error); ok && ne.Timeout() {
+			return fmt.Errorf("the service did not close the connection after its handler failed (hung for %v; %d bytes received, %d invocations)", 3*bound, len(got), env.log.Len())
+		}
+		if len(got) == 0 || got[len(got)-1] != 0 || bytes.IndexByte(got, 0) != len(got)-1 {
+			return fmt.Errorf("%s: the handler's reply of %d MiB was written completely (Reply returned nil) and the connection then closed, but the client received %d bytes that are not one NUL-terminated frame (the read ended with: %v)", c.Transport, c.MiB, len(got), rerr)
+		}
+		var r struct {
+			Parameters json.RawMessage `json:"parameters"`
+		}
+		if jerr := json.Unmarshal(got[:len(got)-1], &r); jerr != nil {
+			return fmt.Errorf("%s: the %d MiB reply is not valid JSON on the wire: %v", c.Transport, c.MiB, jerr)
+		}
+		if d := JSONDiff(doc, r.Parameters); d != "" {
+			return fmt.Errorf("%s: the %d MiB reply arrived changed: %s", c.Transport, c.MiB, d)
+		}
+	case "c2s":
+		ctx, cancel := context.WithTimeout(context.Background(), 3*bound)
+		defer cancel()
+		conn, _, derr := env.dial(E2ECase{Transport: c.Transport}, bound)
+		if derr != nil {
+			return derr
+		}
+		// the service is kept busy for a moment so that the big call is not drained while it is being written
+		if _, serr := conn.Send(ctx, "x.y.M", mustScript(0, nil, Op{Op: "sleep", N: 150}), varlink.Oneway); serr != nil {
+			conn.Close()
+			return fmt.Errorf("Send of the first oneway call failed: %v", serr)
+		}
+		_, serr := conn.Send(ctx, "x.y.M", mustScript(1, doc), varlink.Oneway)
+		conn.Close()
+		if serr != nil {
+			return fmt.Errorf("Send of a oneway call with %d MiB of parameters failed: %v", c.MiB, serr)
+		}
+		dl := time.Now().Add(3 * bound)
+		for env.log.Len() < 2 {
+			if env.svc.VerifActiveConnections() == 0 && env.log.Len() < 2 {
+				time.Sleep(5 * time.Millisecond)
+				if env.log.Len() < 2 {
+					return fmt.Errorf("%s: Send of a oneway call with %d MiB of parameters returned nil and the client closed its connection, but the service's connection ended without the call having been dispatched: the message was cut short", c.Transport, c.MiB)
+				}
+			}
+			if time.Now().After(dl) {
+				return fmt.Errorf("the big oneway call was not dispatched within %v", 3*bound)
+			}
+			time.Sleep(time.Millisecond)
+		}
+		inv := env.log.All()[1]
+		var sp ScriptParams
+		if jerr := json.Unmarshal(inv.Params, &sp); jerr != nil {
+			return fmt.Errorf("the handler received parameters that are not valid JSON: %v", jerr)
+		}
+		if d := JSONDiff(doc, sp.Pad); d != "" {
+			return fmt.Errorf("%s: the %d MiB parameters arrived changed: %s", c.Transport, c.MiB, d)
+		}
+	default:
+		return fmt.Errorf("HARNESS: dir %q", c.Dir)
+	}
+	return nil
+}
+
+var propC02BigClose = Register(Prop[BigCloseCase]{ID: "C02", Name: "C02bigclose", Check: func(c BigCloseCase, st *Stats) error {
+	err := execBigClose(c, protoBound)
+	st.Case(HashOf(c), true, func() interface{} { return c }, "big-message-then-close", "transport:"+c.Transport, "dir:"+c.Dir)
+	return err
+}})
+
+func TestC02BigClose(t *testing.T) {
+	sizes := []int{6, 16}
+	reps := 1
+	if Thorough() {
+		sizes, reps = []int{3, 8, 16, 24, 40}, 3
+	}
+	var cases []BigCloseCase
+	for r := 0; r < reps; r++ {
+		for _, tr := range []string{"tcp", "unixfs"} {
+			for _, d := range []string{"s2c", "c2s"} {
+				for _, m := range sizes {
+					cases = append(cases, BigCloseCase{Transport: tr, Dir: d, MiB: m, Salt: r*100 + m})
+				}
+			}
+		}
+	}
+	shard, nshards := Shard()
+	i := 0
+	RunCases(t, propC02BigClose, "C02BigClose", true, func() (BigCloseCase, bool) {
+		for i < len(cases) {
+			k := i
+			i++
+			if k%nshards == shard {
+				return cases[k], true
+			}
+		}
+		return BigCloseCase{}, false
+	})
 }
